@@ -34,7 +34,11 @@ class CTRLInterface(UDPLink):
 	def handle_rx(self):
 		# Read data from socket
 		data, remote = self.sock.recvfrom(128)
-		data = data.decode()
+		try:
+			data = data.decode()
+		except UnicodeDecodeError:
+			log.error("Non-text data on TRXC interface")
+			return
 
 		if not self.verify_req(data):
 			log.error("Wrong data on TRXC interface")
@@ -42,7 +46,11 @@ class CTRLInterface(UDPLink):
 
 		# Attempt to parse a command
 		request = self.prepare_req(data)
-		rc = self.parse_cmd(request)
+		try:
+			rc = self.parse_cmd(request)
+		except ValueError as e:
+			log.error("Malformed TRXC command arguments: %s" % e)
+			rc = -1
 
 		if type(rc) is tuple:
 			self.send_response(request, remote, rc[0], rc[1])
